@@ -787,7 +787,11 @@ def identify(ctx, x, constants=[], tol=None, maxcoeff=1000, full=False,
         for c, cn in constants:
             if red and cn == '1':
                 continue
-            t = ft(ctx,x,c)
+            try:
+                t = ft(ctx,x,c)
+            except ZeroDivisionError:
+                # e.g. c/log(x) for x = 1
+                continue
             # Prevent exponential transforms from wreaking havoc
             if abs(t) > M**2 or abs(t) < tol:
                 continue
